@@ -333,6 +333,38 @@ def c05(r):
 
 
 # ----------------------------------------------------------------------------- C06
+def _steadiness(spec, d, gen_fits, did):
+    """the verdict FitnessSteadiness must give for deme snapshot d (None: not judged)"""
+    import math
+    from fractions import Fraction
+    n, dev = int(spec["n"]), spec["dev"]
+    hist = d["gens"]                      # per history entry: the sizes of its generations
+    if n > len(hist) - 1:
+        return False
+    if n <= 0:
+        return None
+    avgs, gi = [], 0
+    flat_start = []
+    for me in hist:
+        flat_start.append(gi)
+        gi += len(me)
+    for k in range(len(hist) - n, len(hist)):
+        vals = []
+        for j in range(len(hist[k])):
+            f = gen_fits.get((did, flat_start[k] + j))
+            if f is None or len(f) != hist[k][j]:
+                return None
+            vals += f
+        if not vals or not all(math.isfinite(v) for v in vals):
+            return None
+        avgs.append(sum(Fraction(v) for v in vals) / len(vals))
+    d_ = sum(avgs) / len(avgs) - min(avgs)
+    scale = max(1.0, max(abs(float(a)) for a in avgs))
+    if abs(float(d_) - dev) <= 1e-9 * scale:
+        return None
+    return d_ <= Fraction(dev)
+
+
 def c06(r):
     out = []
     ev = r["events"]
@@ -345,8 +377,16 @@ def c06(r):
     frozen = {}
     cur_run = None
     fresh = []        # demes created in the previous metaepoch: they first run in this one
+    gen_fits = {}     # (deme, flat generation index) -> fitness values, as last recorded
+    lsc_said = {}     # deme -> last verdict of its local stop condition in this metaepoch
     for i, e in enumerate(ev):
         k = e["e"]
+        if k == "gen":
+            gen_fits[(e["deme"], e["gi"])] = [fl(f) for _, f in e["inds"]]
+        if k == "step":
+            lsc_said = {}
+        if k == "lsc":
+            lsc_said[e["id"]] = bool(e["v"])
         if k == "step":
             start = {d["id"]: d for d in e["snap"]["demes"]}
             fresh = list(created)
@@ -388,6 +428,14 @@ def c06(r):
                         and d1["cls"] not in ("LocalDeme",):
                     out.append(V("C06/lsc-holds-but-active", f"deme {did} has run {len(d1['gens']) - 1} metaepochs, its local stop condition MetaepochLimit({lsc_spec['n']}) "
                                                              f"holds at the end of metaepoch {e['m']}, but it is still active", event=i))
+                # FitnessSteadiness(max_deviation, n): recomputed here in exact rational arithmetic from the recorded history (mean over the last n
+                # metaepochs of the per-metaepoch mean fitness, minus the smallest of them, <= max_deviation; false while fewer than n metaepochs
+                # have been run); borderline cases (within 1e-9 of the threshold) and non-finite fitness values are not judged
+                if lsc_spec.get("kind") == "FitnessSteadiness" and did in lsc_said:
+                    exp = _steadiness(lsc_spec, d1, gen_fits, did)
+                    if exp is not None and exp != lsc_said[did]:
+                        out.append(V("C06/steadiness-verdict", f"deme {did}: FitnessSteadiness(max_deviation={lsc_spec['dev']}, n_metaepochs={lsc_spec['n']}) answered {lsc_said[did]} at the end of "
+                                                               f"metaepoch {e['m']} (the deme has run {len(d1['gens']) - 1}); recomputed from its history: {exp}", event=i))
                 if d0["active"] and d1["active"] and should and (did in lsc_true or did in gsc_in or (did in selfstop)):
                     out.append(V("C06/ignored-stop", f"deme {did} stayed active in metaepoch {e['m']} although its stop condition held (lsc={did in lsc_true}, gsc={did in gsc_in}, engine={did in selfstop})", event=i))
             for did in fresh:
